@@ -107,9 +107,10 @@ type abortRun struct{}
 // Env: per-run environment
 
 type Env struct {
-	T    *testing.T
-	Prop string
-	Tape *Tape
+	depth int // see Depth
+	T     *testing.T
+	Prop  string
+	Tape  *Tape
 
 	mu        sync.Mutex
 	trace     hash.Hash
@@ -230,6 +231,20 @@ func (e *Env) ProbeDecl(names ...string) {
 		}
 	}
 	e.mu.Unlock()
+}
+
+// Depth is the run's history-length factor: 1 for nine runs in ten, 3 for a deep run (decided by the
+// tape on first use, so it replays and shrinks like every other choice). Properties multiply the
+// upper bound of their main step loop with it: most runs stay short and diverse, some go deep.
+func (e *Env) Depth() int {
+	if e.depth == 0 {
+		e.depth = 1
+		if e.Chance(1, 10) {
+			e.depth = 3
+			e.Probe("deep-run")
+		}
+	}
+	return e.depth
 }
 
 // State records an abstract state tuple seen at quiescence (counted distinct per batch).
